@@ -92,6 +92,9 @@ func c14Run(c c14Case, res *WRes) {
 			s.Claims.Extra = map[string]interface{}{"sub": "evil", "aud": []string{"evil"}, "iss": "https://evil.example", "nonce": "evil-nonce", "exp": 99999999999, "at_hash": "evil", "c_hash": "evil", "custom": "fine"}
 		case "preset-audience":
 			s.Claims.Audience = []string{"https://resource.example"}
+		case "session-issuer":
+			// a multi-tenant server: the session names the tenant's issuer, which is not the configured default
+			s.Claims.Issuer = "https://tenant-7.issuer.example"
 		case "empty-subject":
 			s.Claims.Subject = ""
 			s.Subject = ""
@@ -185,12 +188,26 @@ func c14Run(c c14Case, res *WRes) {
 	var got []found
 	var o *Obs
 	switch c.Flow {
-	case "code", "refresh":
+	case "code", "refresh", "par-code":
 		params.Set("response_type", "code")
-		o = w.Authorize(params, AuthzOpts{Session: mkSess(), GrantScopes: consent})
+		if c.Flow == "par-code" {
+			// the request is pushed; the front channel carries, next to request_uri, OpenID Connect parameters that
+			// contradict the pushed ones (another nonce, a max_age and prompt any session satisfies)
+			if po := w.PAR(params, w.AuthFor("A")); po.Str("request_uri") != "" {
+				q := url.Values{"client_id": {"A"}, "request_uri": {po.Str("request_uri")}, "max_age": {"1000000000"}, "prompt": {"consent"}}
+				if c.Nonce != "-" {
+					q.Set("nonce", "front-channel-nonce-12345678") // (a parameter that was not pushed may be added: not pinned)
+				}
+				o = w.Authorize(q, AuthzOpts{Session: mkSess(), GrantScopes: consent})
+			} else {
+				o = po
+			}
+		} else {
+			o = w.Authorize(params, AuthzOpts{Session: mkSess(), GrantScopes: consent})
+		}
 		if code := o.Param("code"); code != "" {
 			to := w.Token(url.Values{"grant_type": {"authorization_code"}, "code": {code}, "redirect_uri": {"https://A.example/cb"}}, w.AuthFor("A"))
-			if c.Flow == "code" {
+			if c.Flow != "refresh" {
 				got = append(got, found{idt: to.Str("id_token"), at: to.Str("access_token"), where: "token response"})
 				if to.Str("access_token") == "" {
 					o = to
@@ -291,8 +308,12 @@ func c14Run(c c14Case, res *WRes) {
 		if cl["sub"] != sub {
 			viol("C14/sub-wrong/"+tag+"/extra="+c.Extra, fmt.Sprintf("ID token sub %v, session subject %s", cl["sub"], sub), sub, cl)
 		}
-		if cl["iss"] != IssuerURL {
-			viol("C14/iss-wrong/"+tag+"/extra="+c.Extra, fmt.Sprintf("ID token iss %v, session issuer %s", cl["iss"], IssuerURL), IssuerURL, cl)
+		wantIss := IssuerURL
+		if c.Extra == "session-issuer" {
+			wantIss = "https://tenant-7.issuer.example"
+		}
+		if cl["iss"] != wantIss {
+			viol("C14/iss-wrong/"+tag+"/extra="+c.Extra, fmt.Sprintf("ID token iss %v, session issuer %s", cl["iss"], wantIss), wantIss, cl)
 		}
 		wantNonce := c.Nonce
 		if wantNonce == "-" {
@@ -353,7 +374,7 @@ func c14Run(c c14Case, res *WRes) {
 	res.class(c.Flow + ":" + cls)
 }
 
-var c14Flows = []string{"code", "implicit-idt", "implicit-idt-tok", "hyb-idt", "hyb-tok", "hyb-all", "refresh", "device"}
+var c14Flows = []string{"code", "implicit-idt", "implicit-idt-tok", "hyb-idt", "hyb-tok", "hyb-all", "refresh", "device", "par-code"}
 var c14Keys = []string{"ec256a", "rsa1", "ec384", "ec521", "rsa1/RS384", "rsa1/PS256", "rsa1/RS512"}
 
 type c14Job struct {
@@ -383,7 +404,7 @@ func init() {
 		for _, k := range j.Keys {
 			for _, nonce := range []string{"-", "nonce-0123456789"} {
 				if !j.Full {
-					for _, ex := range []string{"none", "override-reserved", "preset-audience"} {
+					for _, ex := range []string{"none", "override-reserved", "preset-audience", "session-issuer"} {
 						run(c14Case{Flow: j.Flow, Key: k, Nonce: nonce, Prompt: "", Hint: "none", Preset: "none", Extra: ex})
 					}
 					continue
@@ -396,7 +417,7 @@ func init() {
 						for _, pr := range []string{"", "none", "login", "login consent", "consent"} {
 							for _, hi := range []string{"none", "same", "other", "expired-same"} {
 								for _, ps := range []string{"none", "future", "past"} {
-									for _, ex := range []string{"none", "override-reserved", "preset-audience", "empty-subject", "no-openid", "openid-not-granted"} {
+									for _, ex := range []string{"none", "override-reserved", "preset-audience", "empty-subject", "no-openid", "openid-not-granted", "session-issuer"} {
 										if ex != "none" && (hi != "none" || ma != "") {
 											continue // extras are crossed with the prompt/auth_time/preset grid only
 										}
